@@ -148,6 +148,10 @@ func NewConnection(ctx context.Context, targetURL string, header http.Header, er
 					// no subsequent calls will succeed.
 					return
 				}
+				if clientMsg.Type == websocket.CloseMessage {
+					// The close frame is the last thing we send; see Close.
+					return
+				}
 			}
 		}
 	}()
@@ -169,12 +173,17 @@ func NewConnection(ctx context.Context, targetURL string, header http.Header, er
 
 // Close closes the websocket client connection.
 func (conn *Connection) Close() {
-	conn.clientMessages <- &message{
+	// The clientMessages channel is deliberately never closed: a data request
+	// racing with this call, or a second Close, would panic sending on it.
+	// The writing routine stops by itself once it has written the close frame,
+	// and nothing blocks here if it has already gone.
+	select {
+	case conn.clientMessages <- &message{
 		websocket.CloseMessage,
 		websocket.FormatCloseMessage(websocket.CloseNormalClosure, ""),
+	}:
+	case <-conn.done():
 	}
-	// Closing the writing routine.
-	close(conn.clientMessages)
 }
 
 // SendClientMessage sends the given message to the websocket server.
@@ -222,7 +231,12 @@ func (conn *Connection) SendClientMessage(msg interface{}, injectionEnabled bool
 	case <-conn.done():
 		return fmt.Errorf("attempt to send a client message on a closed websocket connection")
 	default:
-		conn.clientMessages <- clientMessage
+	}
+	// Do not block forever on a full queue whose reader has gone away.
+	select {
+	case <-conn.done():
+		return fmt.Errorf("attempt to send a client message on a closed websocket connection")
+	case conn.clientMessages <- clientMessage:
 	}
 	return nil
 }
